@@ -92,13 +92,16 @@ static std::unique_ptr<Mesh> gen_mesh(Rng &r, int flavor) {
   }
   return mb.Finalize();
 }
-static std::unique_ptr<PointCloud> gen_pc(Rng &r) {
+static std::unique_ptr<PointCloud> gen_pc(Rng &r, bool force_wide = false) {
   PointCloudBuilder pb; int n = (int)r.range(1, 120); pb.Start(n);
   int pos = pb.AddAttribute(GeometryAttribute::POSITION, 3, DT_FLOAT32);
   int col = r.chance(60) ? pb.AddAttribute(GeometryAttribute::COLOR, 3, DT_UINT8) : -1;
   int gen = r.chance(40) ? pb.AddAttribute(GeometryAttribute::GENERIC, 2, DT_INT16) : -1;
   int g32 = r.chance(35) ? pb.AddAttribute(GeometryAttribute::GENERIC, 1, DT_INT32) : -1;
+  // an attribute whose values are 256 bytes or more each (64..100 x uint32)
+  int widec = (force_wide || r.chance(8)) ? (int)r.range(64, 100) : 0; int wide = widec ? pb.AddAttribute(GeometryAttribute::GENERIC, (int8_t)widec, DT_UINT32) : -1;
   for (int i = 0; i < n; i++) {
+    if (wide >= 0) { std::vector<uint32_t> w(widec); for (auto &x : w) x = (uint32_t)r.below(50); pb.SetAttributeValueForPoint(wide, PointIndex(i), w.data()); }
     if (g32 >= 0) { int32_t g = (int32_t)r.range(-70000, 70000); pb.SetAttributeValueForPoint(g32, PointIndex(i), &g); }
     float p[3] = {(float)r.range(-500, 500) / 10.f, (float)r.range(-500, 500) / 10.f, (float)r.range(-100, 100) / 4.f}; pb.SetAttributeValueForPoint(pos, PointIndex(i), p);
     if (col >= 0) { uint8_t c[3] = {(uint8_t)r.below(256), (uint8_t)r.below(8), (uint8_t)(i % 256)}; pb.SetAttributeValueForPoint(col, PointIndex(i), c); }
@@ -198,6 +201,7 @@ static std::string validate(const PointCloud &pc, const Mesh *m) {
   for (int i = 0; i < pc.num_attributes(); i++) {
     const PointAttribute *a = pc.attribute(i);
     if (a->num_components() <= 0) return "num_components <= 0";
+    if (a->byte_stride() < (int64_t)a->num_components() * DataTypeLength(a->data_type())) return "byte stride smaller than one value";
     if (!a->is_mapping_identity() && a->indices_map_size() != pc.num_points()) return "point map size != num_points";
     if ((uint64_t)a->buffer()->data_size() < (uint64_t)a->size() * a->byte_stride()) return "attribute buffer too small";
     for (PointIndex p(0); p < pc.num_points(); ++p) if (a->mapped_index(p).value() >= a->size()) return "point maps to a missing value";
@@ -262,7 +266,7 @@ int main(int argc, char **argv) {
   std::vector<Stream> streams;
   int ng = thorough ? 60 : 14;
   for (int i = 0; i < ng; i++) { auto m = gen_mesh(r, i % 2); if (m && i % 4 == 3) add_metadata(r, m.get()); if (m) encode_mesh_variants(r, *m, streams, thorough ? 5 : 3); }
-  for (int i = 0; i < ng; i++) { auto p = gen_pc(r); if (p && i % 4 == 1) add_metadata(r, p.get()); if (p) encode_pc_variants(r, *p, streams, thorough ? 4 : 2); }
+  for (int i = 0; i < ng; i++) { auto p = gen_pc(r, i == 2); if (p && i % 4 == 1) add_metadata(r, p.get()); if (p) encode_pc_variants(r, *p, streams, thorough ? 4 : 2); }
   boundary_meshes(streams, thorough);
   // kd-tree streams at the highest compression level (speed 0: the decoder reads a 4-bit split axis per node) with >= 64 points; every
   // single bit of these streams is flipped below
